@@ -204,4 +204,7 @@ def run(P, R, tier):
     from . import c15
     from ..report import Remap
     c15.notification(P, Remap(R, {'C15.GRD.1': 'C17.GRD.3', 'C15.MPT.1': 'C17.GRD.3'}))
+    # a reload that is not applied, or a removal that is not reported, never reaches the modules' hooks
+    c15.load_merges(P, Remap(R, {'C15.MPT.3': 'C17.MPT.4', 'C15.WMC.1': 'C17.MPT.4'}))
+    c15.removal_reports_change(P, Remap(R, {'C15.MPT.4': 'C17.GRD.3'}))
     return EXPLANATION, ASSUMPTIONS
